@@ -743,9 +743,63 @@ class Discharger:
                 a = rx.var_name(cl["args"][0]) if cl["args"] else None
                 n = env.get(a)
                 if n is None or n["t"] != "set":
-                    return None
+                    # the caller hands on its own parameter: the strings *it* is applied to (a conversion used as `.map(F)`)
+                    via = self.param_string_sources(f2, a) if a is not None else None
+                    if via is None:
+                        return None
+                    out += [("%s(%s) ← %s" % (k2, a, w_), n_["cs"]) for w_, n_ in via]
+                    continue
                 out.append(("%s(%s)" % (k2, a), n["cs"]))
         return out or None
+
+    def param_string_sources(self, f, pname):
+        """[(where, set node)]: the character-set parsers whose text reaches the parameter `pname` of `f` — `f` must be used
+        nowhere but as the function of a `.map(..)` standing directly on such a parser (`take_while(1.., set).map(Who::from)`).
+        None when some use of `f` is of another kind or `pname` is not its one value parameter."""
+        ps = [n_ for n_, _ in f.params if n_ and n_ != "self"]
+        if ps != [pname]:
+            return None
+        ty = norm_ty(f.impl["self_ty"]).split("<")[0] if f.impl is not None else None
+        found, other = [], []
+
+        def names_f(pth):
+            segs = pth.get("segs") or []
+            if not segs or segs[-1] != f.name:
+                return False
+            if ty is not None:
+                return len(segs) >= 2 and segs[-2] in (ty, "Self")
+            return True
+
+        def visit(k2):
+            def w(n):
+                same_body = isinstance(n.get("f"), dict) and n["f"].get("k") == "closure" and [rx.pat_bindings(p_) for p_ in n["f"]["params"]] == [[pname]] and src(n["f"]["body"]).strip("{} ") == src(f.body).strip("{} ")
+                if n["t"] == "map" and isinstance(n.get("f"), dict) and ((n["f"].get("k") == "path" and names_f(n["f"])) or same_body):
+                    inner = A.unwrap(n["p"])
+                    while inner["t"] in ("ctx", "cut"):
+                        inner = A.unwrap(inner["p"])
+                    if inner["t"] == "set":
+                        found.append((k2, inner))
+                    else:
+                        other.append(k2)
+
+            self.g.walk(self.b.fn_ir(k2), w, follow=False)
+
+        for k2, f2 in self.f.fns.items():
+            if f2.test:
+                continue
+            uses = find_all(f2.body, lambda n: n.get("k") == "path" and names_f(n), skip_pats=True)
+            if not uses or f2 is f:
+                continue
+            before = len(found)
+            try:
+                visit(k2)
+            except F.AnchorMissing:
+                return None
+            if len(found) - before != len(uses):
+                return None  # a use that is not the function of a map over a character set
+        if other or not found:
+            return None
+        return found
 
     def set_cover_tokens(self, f, mt, toks):
         have = {t.split("::")[1] for t in toks}
@@ -1020,6 +1074,27 @@ class Discharger:
                 except (P.NoEval, P.Panic):
                     red = False
             return n["min"] >= 1 and red, "nonempty", "`%s` is parsed by %s{%d,}: reduce() over a non-empty string is Some" % (arg, peg.cs_show(n["cs"]), n["min"])
+        via = self.param_string_sources(f, arg) if arg is not None else None
+        if via:
+            # the argument is the function's own parameter, and the function is only ever mapped over character-set parsers
+            hname = recv["f"]["segs"][-1]
+            h = next((x for x in self.f.fns.values() if x.name == hname and not x.test), None)
+            from .. import probe as P
+
+            red = False
+            if h is not None:
+                try:
+                    oks = []
+                    for n_ in (1, 2, 3):
+                        pr = P.Probe(self.f, None, h.module)
+                        pr.opaque_calls = {g_.key for g_ in self.f.fns.values() if not g_.test and [t_ for nn_, t_ in g_.params if nn_ != "self"] == ["char"]}
+                        r_ = pr.invoke(h, None, [[P.Opq("c%d" % i_) for i_ in range(n_)]])
+                        oks.append(isinstance(r_, tuple) and r_ and r_[0] == "some")
+                    red = all(oks)
+                except (P.NoEval, P.Panic):
+                    red = False
+            okmin = all(n_["min"] >= 1 for _, n_ in via)
+            return okmin and red, "nonempty", "`%s` is the text of %s (the function is only used as `.map(..)` on these parsers): %s yields Some for every non-empty text" % (arg, ["%s{%d,} in %s" % (peg.cs_show(n_["cs"]), n_["min"], w_) for w_, n_ in via], hname)
         return None, "nonempty", "argument `%s` not bound from a parser tuple" % arg
 
     def ensure_get(self, f, node, recv):
